@@ -31,7 +31,14 @@ imported_names_set = {
     'Any', 'Dict', 'List', 'Literal', 'Optional', 'Tuple', 'Union',
     'IntString', 'FloatString', 'BooleanString', 'IsoDateString', 'IsoTimeString', 'IsoDatetimeString',
 }
-blacklist_words = frozenset(keywords_set | builtins_set | other_common_names_set | imported_names_set)
+# Attributes of pydantic's BaseModel: a field with such a name does not load ("shadows a BaseModel attribute")
+base_model_names_set = {
+    'Config', 'construct', 'copy', 'dict', 'from_orm', 'json', 'parse_file', 'parse_obj', 'parse_raw',
+    'schema', 'schema_json', 'update_forward_refs', 'validate',
+}
+blacklist_words = frozenset(
+    keywords_set | builtins_set | other_common_names_set | imported_names_set | base_model_names_set
+)
 ones = ['', 'one', 'two', 'three', 'four', 'five', 'six', 'seven', 'eight', 'nine']
 
 
